@@ -594,12 +594,17 @@ def write_evidence(prop, tier, vseed, agg, aggB, pair_checked, n_new, known_hits
             "simulated_time": "none - the code under test reads no clock; steps are the unit",
             "real_components": ["CircuitCalculator (working tree)", "numpy", "scipy", "schemdraw", "json", "PyYAML",
                                 "CPython TextIOWrapper/BufferedReader/BufferedWriter", "OS processes (fork) for isolation"],
-            "stub_components": ["raw file device (io.RawIOBase) and the module attribute `open`"],
+            "stub_components": ["raw file device (io.RawIOBase) behind a process-wide dispatching layer for open/os.*/fcntl/mmap (sim/simfs.py)",
+                                "st_mtime clock of the device (fine / coarse / frozen per run)",
+                                "id() as seen by library modules (adversarial reuse of the ids of dead objects)",
+                                "display: schemdraw runs as in an inline session (renders, but writes no /tmp/*.svg and spawns no viewer)",
+                                "caller-supplied callables (solver, mappers, input signals, dump/deserialize functions): the library's own defaults wrapped by the simulator"],
         },
         "assumptions": [
             "a clean batch is evidence, not proof: histories are sampled",
             "thread safety, crash durability of dump and numerical correctness are out of scope",
-            "numbers compare with relative tolerance 1e-9, nan==nan",
+            "numbers compare with relative tolerance 1e-9 or 1e-12 of the largest magnitude in the two results, nan==nan",
+            "after a failed or interrupted save a load may raise; what it returns instead is judged (old or new, never a mixture) for JSON only",
         ],
         "wall_s": round(wall, 2), "violations": n_new,
     }
